@@ -38,11 +38,13 @@ P == INSTANCE Provider WITH Kind <- PKind,
 
 (***************************************************************************)
 (* Rule sets.  Version k of source s is named "v<k>"; all versions have    *)
-(* the rule "keep" (/s/keep), odd ones "odd" (/s/odd), every third one     *)
-(* "any" (/s/:x).  Every rule tags its responses "<s>.<rule>@<version>".   *)
+(* the rule "keep" (/s/keep); v1, v2, v5, v6, ... also "odd" (/s/odd),     *)
+(* v4, v8, ... also "any" (/s/:x): v1 -> v2 changes definitions only (same  *)
+(* rule ids), v2 -> v3 drops a rule, v3 -> v4 adds a wildcard rule.  Every *)
+(* rule tags its responses "<s>.<rule>@<version>".                         *)
 (***************************************************************************)
 VerName(k)  == "v" \o ToString(k)
-VerRules(k) == <<"keep">> \o (IF k % 2 = 1 THEN <<"odd">> ELSE <<>>) \o (IF k % 3 = 0 THEN <<"any">> ELSE <<>>)
+VerRules(k) == <<"keep">> \o (IF k % 4 \in {1, 2} THEN <<"odd">> ELSE <<>>) \o (IF k % 4 = 0 THEN <<"any">> ELSE <<>>)
 
 Lit(x) == [t |-> "lit", v |-> x, n |-> ""]
 One(x) == [t |-> "one", v |-> "", n |-> x]
@@ -60,10 +62,28 @@ RuleSetOf(src, a) == [i \in 1..Len(a.rules) |-> MkRule(src, a.rules[i], a.c)]
 
 Req(src, seg) == [path |-> <<src, seg>>, method |-> "GET", scheme |-> "http", host |-> "h"]
 
-(* the tags a request for /src/seg may get while a is the active version of src (a singleton) *)
-Resp(src, a, seg) ==
+(* the tags a request for /src/seg may get while a is the active version of src (a singleton): *)
+(* RuleIndex!Probe on the rule set of that version                                             *)
+RespDirect(src, a, seg) ==
   IF a = None THEN {"norule"}
   ELSE Probe(<<src>>, [x \in {src} |-> RuleSetOf(src, a)], Req(src, seg), FALSE)
+
+(* The same, tabulated once per (set of rule names, segment) for the segments the drivers use: *)
+(* which rule NAME answers does not depend on the source's name nor on the version.  HeimdallMC *)
+(* checks Resp = RespDirect.                                                                    *)
+RuleNames == {"keep", "odd", "any"}
+TabSegs == {"keep", "odd", "zzz"}
+OrderedNames(ns) == SelectSeq(<<"keep", "odd", "any">>, LAMBDA n : n \in ns)
+WinnerTab == [ns \in SUBSET RuleNames, seg \in TabSegs |->
+                LET a == [c |-> "V", rules |-> OrderedNames(ns)]
+                    ids == RespDirect("X", a, seg)
+                IN {IF id = "norule" THEN id ELSE CHOOSE n \in ns : TagOf("X", n, "V") = id : id \in ids}]
+
+Resp(src, a, seg) ==
+  IF a = None THEN {"norule"}
+  ELSE IF seg \in TabSegs /\ ToSet(a.rules) \subseteq RuleNames /\ a.rules = OrderedNames(ToSet(a.rules))
+  THEN {IF n = "norule" THEN n ELSE TagOf(src, n, a.c) : n \in WinnerTab[ToSet(a.rules), seg]}
+  ELSE RespDirect(src, a, seg)
 
 (***************************************************************************)
 (* The contract.                                                           *)
@@ -112,9 +132,8 @@ ReqReasonsAt(src, Ws, fl, hi, pm, q) ==
         THEN {"e2e-rule-missing-during-update"}                                    \* E2
         ELSE IF Explains(src, Ws, 1, fl.idx, q.seg, q.tag)
         THEN {"e2e-version-older-than-acknowledged"}                               \* E1, lower bound
-        ELSE IF Explains(src, Ws, hi + 1, Len(Ws), q.seg, q.tag)
-        THEN {"e2e-version-not-yet-written"}                                       \* E1, upper bound
-        ELSE {"e2e-response-of-no-current-version"}                                \* E1
+        ELSE {"e2e-response-of-no-current-version"}                                \* E1 (incl. the upper bound: a
+                                                                                   \* version written after the end)
      ELSE IF MaxOf(cand) < pm
      THEN {"e2e-version-regression"}                                               \* E4
      ELSE {}
@@ -146,6 +165,7 @@ AckReasons(src, Ws, As, a) ==
 
 (* the acknowledged state the following requests are judged against *)
 AckFloor(src, Ws, As, a) ==
+  IF a.idx > Len(Ws) \/ a.idx < As[Len(As)].idx THEN As[Len(As)] ELSE     \* malformed trace: nothing learnt
   LET match == AckMatches(src, Ws, As, a)
       any   == {Eff(Ws[j]) : j \in 1..Len(Ws)} \cup {None}
       seen  == {x \in any \ {Keep} : a.tag \in Resp(src, x, "keep")}
